@@ -174,6 +174,90 @@ def probe_behaviour(ad, ex, problems, txt):
             problems.append(("behaviour", f"{txt}: full occurrence {label} found although the type forbids it ({m})"))
 
 
+def gen_invalid(ctx, rng):
+    """A generated valid specification made invalid in one documented way: it must be rejected with one of the
+    exception types the command line turns into an error message and exit status 2."""
+    from cutadapt.parser import make_adapters_from_specifications
+    from cutadapt.adapters import InvalidCharacter
+
+    sp = dict(max_errors=0.1, min_overlap=3, read_wildcards=False, adapter_wildcards=True, indels=True)
+    typ = rng.choice(["front", "back", "anywhere"])
+    how = rng.choice(["o-anchored", "o-anchored-linked", "rightmost-wrong", "required-single", "b-restricted", "b-linked",
+                      "indels-both", "twice", "required-both", "two-restrictions"])
+    join = lambda d: d["text"] + (";" + ";".join(d["ptxt"]) if d["ptxt"] else "")
+
+    def anchored(t):
+        while True:
+            d = gen_single(rng, t, allow_flags=False)
+            if d["restr"] == "anchored":
+                return d
+
+    if how == "o-anchored":
+        typ = rng.choice(["front", "back"])
+        d = anchored(typ)
+        d["ptxt"].insert(rng.randint(0, len(d["ptxt"])), rng.choice(["o=3", "min_overlap=5"]))
+        spec = join(d)
+    elif how == "o-anchored-linked":
+        typ = rng.choice(["front", "back"])
+        f, b = gen_single(rng, "front", allow_flags=False), gen_single(rng, "back", allow_flags=False)
+        if rng.random() < 0.5:
+            f = anchored("front"); f["ptxt"].append("o=2")
+        else:
+            b = anchored("back"); b["ptxt"].append("min_overlap=4")
+        spec = join(f) + "..." + join(b)
+    elif how == "rightmost-wrong":
+        typ = rng.choice(["front", "back"])
+        d = gen_single(rng, typ, allow_flags=False)
+        if typ == "front" and d["restr"] is None:
+            typ = "back"
+            d = gen_single(rng, typ, allow_flags=False)
+        d["ptxt"].append("rightmost")
+        spec = join(d)
+    elif how == "required-single":
+        d = gen_single(rng, typ, allow_flags=False)
+        d["ptxt"].append(rng.choice(["required", "optional"]))
+        spec = join(d)
+    elif how == "b-restricted":
+        typ = "anywhere"
+        d = gen_single(rng, rng.choice(["front", "back"]), allow_flags=False)
+        if d["restr"] is None:
+            d["text"] = "^" + d["text"]
+        spec = join(d)
+    elif how == "b-linked":
+        typ = "anywhere"
+        spec = join(gen_single(rng, "front", allow_restr=False, allow_flags=False)) + "..." + join(gen_single(rng, "back", allow_restr=False, allow_flags=False))
+    elif how == "indels-both":
+        d = gen_single(rng, typ, allow_flags=False)
+        d["ptxt"] = [p for p in d["ptxt"] if "indels" not in p] + ["indels", "noindels"]
+        spec = join(d)
+    elif how == "twice":
+        d = gen_single(rng, typ, allow_flags=False)
+        d["ptxt"] = [p for p in d["ptxt"] if "=" not in p or p.strip()[0] == "o" or p.strip().startswith("min_")] + ["e=0.1", rng.choice(["max_error_rate=0.2", "error_rate=0.1", "max_errors=0.3"])]
+        spec = join(d)
+    elif how == "required-both":
+        typ = rng.choice(["front", "back"])
+        f, b = gen_single(rng, "front", allow_flags=False), gen_single(rng, "back", allow_flags=False)
+        x = rng.choice([f, b])
+        x["ptxt"] += ["required", "optional"]
+        spec = join(f) + "..." + join(b)
+    else:
+        typ = rng.choice(["front", "back"])
+        d = gen_single(rng, typ, allow_restr=False, allow_flags=False)
+        d["text"] = ("^" + d["text"] + "X") if typ == "front" else ("X" + d["text"] + "$")
+        spec = join(d)
+    ctx.case(("invalid", how, spec, typ))
+    ctx.count("generated_invalid:" + how)
+    case = dict(invalid_api=True, spec=spec, typ=typ, sp=sp)
+    try:
+        ads = make_adapters_from_specifications([(typ, spec)], sp)
+    except (KeyError, ValueError, InvalidCharacter):
+        return
+    except Exception as e:
+        ctx.violation("invalid-crashes", f"invalid specification ({how}) {spec!r} as {typ}: {type(e).__name__}: {e} instead of an error message", case, klass=how)
+        return
+    ctx.violation("invalid-accepted", f"invalid specification ({how}) {spec!r} as {typ} was accepted: {ads}", case, klass=how)
+
+
 def gen_and_check(ctx, rng):
     from cutadapt.parser import make_adapters_from_specifications
     import cutadapt.adapters as A
@@ -383,6 +467,9 @@ INVALID = [
     (["-b", "ACGT...TTTT"], "linked anywhere adapter"),
     (["-a", "ACGTACGT$;o=3"], "min_overlap for an anchored adapter"),
     (["-g", "^ACGTACGT;min_overlap=3"], "min_overlap for an anchored adapter"),
+    (["-a", "^ACGTACGT;o=3...TTTTGGGG"], "min_overlap for the anchored 5' part of a linked adapter"),
+    (["-g", "^ACGTACGT;min_overlap=3...TTTTGGGG"], "min_overlap for the anchored 5' part of a linked adapter (-g)"),
+    (["-a", "ACGTACGT...TTTTGGGG$;o=3"], "min_overlap for the anchored 3' part of a linked adapter"),
     (["-g", "^ACGTACGTX"], "two placement restrictions"),
     (["-a", "XACGTACGT$"], "two placement restrictions"),
     (["-g", "ACGTACGT$"], "3' restriction on a 5' adapter"),
@@ -441,6 +528,8 @@ def run_shard(ctx):
             ctx.count("stopped_on_time_budget")
             break
         gen_and_check(ctx, rng)
+        if i % 12 == 0:
+            gen_invalid(ctx, rng)
     if ctx.shard == 0:
         cli_invalid(ctx)
 
@@ -451,6 +540,17 @@ def replay(ctx, case):
         return
     from cutadapt.parser import make_adapters_from_specifications
 
+    if case.get("invalid_api"):
+        from cutadapt.adapters import InvalidCharacter
+        ctx.case(("replay", case["spec"]))
+        try:
+            ads = make_adapters_from_specifications([(case["typ"], case["spec"])], case["sp"])
+            ctx.violation("invalid-accepted", f"{case['spec']!r} accepted: {ads}", case)
+        except (KeyError, ValueError, InvalidCharacter) as e:
+            print("rejected:", e)
+        except Exception as e:
+            ctx.violation("invalid-crashes", f"{type(e).__name__}: {e}", case)
+        return
     glob = case["glob"]
     sp = dict(max_errors=glob["e"], min_overlap=glob["o"], read_wildcards=glob["rw"], adapter_wildcards=glob["aw"], indels=glob["indels"])
     spec = case["spec"]
